@@ -62,9 +62,11 @@ def _copy_chunk(chunk, prop):
                 diffs = iso(a, b)
             else:
                 diffs = iso(nodes[i], cp._root)
-            for d in diffs[:2]:
-                # known finding F15: the *top* node of a typed node copy gets the default kind
-                res.violations.append(Violation(prop, "effect" if "kind 'child' vs" in d.replace("vs source", "vs spec") else "ensures copy is isomorphic with identical data objects, ids, kinds", func, wit, clip(d.replace("vs source", "vs spec") if "kind 'child'" in d else d)))
+            for d in diffs[:3]:
+                # known finding F15: the *top* node of a typed Node.copy(add_self=True) gets the default kind -- that node only;
+                # a lost kind anywhere else (Tree.copy, deeper levels) is a violation of its own
+                f15 = func == "Node.copy" and add_self and "kind 'child' vs" in d and d.split(": kind ")[0].count("/") == 1
+                res.violations.append(Violation(prop, "effect" if f15 else "ensures copy is isomorphic with identical data objects, ids, kinds", func, wit, clip(d.replace("vs source", "vs spec") if f15 else d)))
             for v in view.wf_violations(cp):
                 res.violations.append(Violation(prop, "ensures wf(copy)", func, wit, v))
             if view.obs(tree) != before:
